@@ -143,9 +143,15 @@ def run_case(case):
                 ref = jm.ref_logabsdet(J)
                 fallback = True
                 r.count("edge_fallbacks")
-                if abs(float(li) - lib) > 1e-2 * (1 + abs(lib)) and min(lib, float(li)) > -12.0:
+                # continuity is judged at the smallest nudge that is still clear of the edge (1e-13): steep but continuous
+                # maps (derivative growing from 4e-4 to 300 within 1e-4 of the edge was observed under the `extreme`
+                # policy) legitimately move their log-det by O(1) over the 1e-9 used for the Jacobian comparison
+                with torch.no_grad():
+                    xs = zoo.nudge_edges(x[i], me, rel=1e-13)
+                    ls = float(model(xs[None], ci[None] if ci is not None else None)[1][0])
+                if abs(ls - lib) > 1e-2 * (1 + abs(lib)) and min(lib, ls) > -12.0:
                     r.viol("edge_discontinuity", "%s logabsdet jumps at a domain edge" % fam, item=i, at_edge=lib,
-                           inside=float(li), cfg=cfg, policy=pol)
+                           inside=ls, cfg=cfg, policy=pol)
                 lib = float(li)
         if ref is None or not torch.isfinite(ref):
             if lib < -12.0:
@@ -250,11 +256,14 @@ def run_spline_fn(case):
             xn = torch.where(art & near_lo, xj + 1e-9 * (hi_e - lo_e), torch.where(art & near_hi, xj - 1e-9 * (hi_e - lo_e), xj))
             out2, lad2, grad2 = jm.elementwise_derivative(lambda z: fn(inputs=z, inverse=False, **params, **kw), xn)
             r.count("edge_fallbacks", int(art.sum()))
-            jump = art & ((lad2 - lad).abs() > 1e-2 * (1 + lad.abs())) & (torch.minimum(lad, lad2) > -12.0)
+            xs = torch.where(art & near_lo, xj + 1e-13 * (hi_e - lo_e), torch.where(art & near_hi, xj - 1e-13 * (hi_e - lo_e), xj))
+            with torch.no_grad():
+                lad_s = fn(inputs=xs, inverse=False, **params, **kw)[1]
+            jump = art & ((lad_s - lad).abs() > 1e-2 * (1 + lad.abs())) & (torch.minimum(lad, lad_s) > -12.0)
             if jump.any():
                 k = int(jump.nonzero()[0])
                 r.viol("edge_discontinuity", "spline %s logabsdet jumps at a domain edge" % fam, x=float(xj[k]),
-                       at_edge=float(lad[k]), inside=float(lad2[k]), box=bx, bins=K)
+                       at_edge=float(lad[k]), inside=float(lad_s[k]), box=bx, bins=K)
             lad = torch.where(art, lad2, lad)
             grad = torch.where(art, grad2, grad)
         ok = torch.isfinite(lad) & torch.isfinite(grad) & (grad > 0)
